@@ -9,6 +9,7 @@ import CkbVerif.Lemmas.Locate
 import CkbVerif.Lemmas.Analyzer
 import CkbVerif.Model.HeadersSync
 import CkbVerif.Model.Fetch
+import CkbVerif.Lemmas.Fetch
 
 /-!
 # C17 — sync bookkeeping structures behave like their simple mathematical models
@@ -1769,6 +1770,263 @@ theorem fetch_overruns_fetch_end :
     let r := fetchLoop exFetchEnv 7 (5, 5) 1 7 2 ({}, [], [(7, { best := some ⟨5, 5, 12⟩, lastCommon := some (1, 1) })], 2)
     r.1 = true ∧ r.2.2.1.map (·.number) = [3] ∧ r.2.2.2.2 = 5 ∧
       (r.2.2.2.1.get 7).bind (·.lastCommon) = some (2, 2) := by decide
+
+/-- (1) What `fetch` requests, for EVERY consistent in-flight table, peers state and node view: when it
+answers `Some(chunks)`, the chunks concatenate to the requested headers `new` sorted by number; each
+requested header is unstored, unreceived, was NOT in flight before (from any peer) and is reached by
+parent links from an ancestor-lookup of the peer's best known header; there are at most
+`peer_can_fetch_count` of them; afterwards `inflight_states` is exactly the old map plus one entry per
+requested header, from exactly this peer — nothing else of the map changes —, the table is still
+consistent (no block in flight from two peers, peer lists = states) and `restart_number`, the analyzer
+and the policy fields are untouched. -/
+theorem fetch_requests_spec (e : Env) {infl : Inflight} (hinv : Inflight.Inv infl) (ps : PeersSt)
+    (peer fetchEnd : Nat) {cs : List (List Nat)} {infl' : Inflight} {ps' : PeersSt}
+    (h : fetch e infl ps peer fetchEnd = (some cs, infl', ps')) :
+    ∃ bk new, (ps.get peer).bind (·.best) = some bk ∧
+      cs.flatten = (sortFetched new).map (·.id) ∧ (sortFetched new).Perm new ∧
+      (sortFetched new).Pairwise (fun a b => a.number ≤ b.number) ∧
+      new.length ≤ peerCanFetch infl peer ∧
+      (∀ x ∈ new, e.stored x.id = false ∧ e.received x.id = false ∧ hasState infl ⟨x.number, x.id⟩ = false ∧
+        ∃ n top j, e.anc bk.hash n = some top ∧ walk e.hdr j top = some x) ∧
+      infl'.states = new.reverse.map (reqEntry e peer) ++ infl.states ∧
+      Inflight.Inv infl' ∧ FrameEq infl' infl := by
+  obtain ⟨bk, ps1, lc, infl2, fetched, endN2, hbk, _, _, _, _, hloop, hcs, hinfl⟩ :=
+    fetch_some_inv e infl ps peer fetchEnd cs infl' ps' h
+  obtain ⟨new, r1, r2, r3, r4, r5⟩ := fetchLoop_requests e peer (bk.number, bk.hash)
+    (min (fetchEndN e lc bk fetchEnd - fetchStart e lc + 1) (peerCanFetch infl peer)) (bk.number + 2)
+    (fetchStart e lc) infl [] ps1 (fetchEndN e lc bk fetchEnd) hinv
+  have hcount := (fetch_window_bound e peer (bk.number, bk.hash) (bk.number + 2) (fetchStart e lc)
+    (fetchEndN e lc bk fetchEnd) infl ps1).1
+  rw [hloop] at r1 r2 r3 r4 hcount
+  simp only [List.nil_append] at r1 r2 r3 r4 hcount
+  subst r1
+  have hstates : infl'.states = infl2.states ∧ Inflight.Inv infl' ∧ FrameEq infl' infl2 := by
+    rw [hinfl]
+    split
+    · exact ⟨(markSlow_states _ _ _).1, Inflight.Inv.markSlow r3 _ _, (markSlow_states _ _ _).2.1⟩
+    · exact ⟨rfl, r3, FrameEq.rfl' _⟩
+  have hnodup := r3.statesNodup
+  rw [r2, List.map_append, List.nodup_append] at hnodup
+  refine ⟨bk, fetched, hbk, ?_, List.mergeSort_perm _ _, ?_, hcount, ?_, by rw [hstates.1, r2],
+    hstates.2.1, FrameEq.trans' hstates.2.2 r4⟩
+  · rw [hcs]
+    exact chunks_flatten _ (by decide) _ _ (by simp)
+  · have hp := List.pairwise_mergeSort (le := fun (a b : Hdr) => decide (a.number ≤ b.number))
+      (by intro a b c h1 h2; simp only [decide_eq_true_eq] at h1 h2 ⊢; omega)
+      (by intro a b; simp only [Bool.or_eq_true, decide_eq_true_eq]; omega) fetched
+    exact hp.imp (by intro a b h; simpa using h)
+  · intro x hx
+    obtain ⟨a, b, c⟩ := r5 x hx
+    refine ⟨a, b, ?_, c⟩
+    cases hh : hasState infl ⟨x.number, x.id⟩ with
+    | false => rfl
+    | true =>
+      exfalso
+      obtain ⟨en, hen, heq⟩ := List.any_eq_true.mp hh
+      have hk : en.1 = (⟨x.number, x.id⟩ : Blk) := by simpa using heq
+      have h2 : (⟨x.number, x.id⟩ : Blk) ∈ infl.states.map (·.1) := List.mem_map.mpr ⟨en, hen, hk⟩
+      have h1 : (⟨x.number, x.id⟩ : Blk) ∈ (fetched.reverse.map (reqEntry e peer)).map (·.1) :=
+        List.mem_map.mpr ⟨reqEntry e peer x, List.mem_map.mpr ⟨x, List.mem_reverse.mpr hx, rfl⟩, rfl⟩
+      exact hnodup.2.2 _ h1 _ h2 rfl
+
+/-- a `set_last_common_header` made by the scan: to a stored and valid header reached by parent links from
+an ancestor-lookup of the peer's best known header -/
+def GoodScanWrite (e : Env) (bestHash : Nat) (x : NH) : Prop :=
+  ∃ n top j t, e.anc bestHash n = some top ∧ walk e.hdr j top = some t ∧ e.stored t.id = true ∧
+    e.valid t.id = true ∧ x = (t.number, t.id)
+
+/-- the peers after the writes `ws` (in order) to `peer`'s last common header -/
+def applyWrites (peer : Nat) (ws : List NH) (ps : PeersSt) : PeersSt :=
+  ws.foldl (fun p x => p.setLastCommon peer x) ps
+
+theorem applyWrites_append (peer : Nat) (a b : List NH) (ps : PeersSt) :
+    applyWrites peer (a ++ b) ps = applyWrites peer b (applyWrites peer a ps) := by
+  simp [applyWrites, List.foldl_append]
+
+/-- The whole scan, peers side: all it does to the peers is a sequence of `set_last_common_header`
+calls for `peer`, each to a stored-and-valid header below the best known header. -/
+theorem fetchLoop_writes (e : Env) (peer : Nat) (best : NH) (nFetch : Nat) : ∀ (fuel start : Nat) (st : St),
+    ∃ ws, (fetchLoop e peer best nFetch fuel start st).2.2.2.1 = applyWrites peer ws st.2.2.1 ∧
+      ∀ x ∈ ws, GoodScanWrite e best.2 x := by
+  intro fuel
+  induction fuel with
+  | zero => intro start st; exact ⟨[], by simp [fetchLoop, applyWrites], by intro x hx; cases hx⟩
+  | succ fuel ih =>
+    intro start st
+    obtain ⟨infl, fetched, ps, endN⟩ := st
+    unfold fetchLoop
+    simp only []
+    split
+    · generalize min (endN - start + 1) (nFetch - fetched.length) = span
+      cases ha : e.anc best.2 (start + span - 1) with
+      | none => exact ⟨[], by simp [applyWrites], by intro x hx; cases hx⟩
+      | some header =>
+        simp only
+        have hsp := (scanSpan_spec e peer best.1 span header (infl, fetched, ps, endN)).2.2
+        have hw0 : ∃ ws0, (scanSpan e peer best.1 span header (infl, fetched, ps, endN)).2.2.2.1 =
+            applyWrites peer ws0 ps ∧ ∀ x ∈ ws0, GoodScanWrite e best.2 x := by
+          rcases hsp with h | ⟨j, t, _, hw, h1, h2, h3⟩
+          · exact ⟨[], by simpa [applyWrites] using h, by intro x hx; cases hx⟩
+          · refine ⟨[(t.number, t.id)], by simpa [applyWrites] using h3, ?_⟩
+            intro x hx
+            have : x = (t.number, t.id) := by simpa using hx
+            exact ⟨_, header, j, t, ha, hw, h1, h2, this⟩
+        generalize scanSpan e peer best.1 span header (infl, fetched, ps, endN) = r at hw0
+        obtain ⟨ok, infl1, fetched1, ps1, end1⟩ := r
+        obtain ⟨ws0, e0, g0⟩ := hw0
+        simp only at e0
+        cases ok
+        · exact ⟨ws0, e0, g0⟩
+        · simp only
+          obtain ⟨ws1, e1, g1⟩ := ih (start + span) (infl1, fetched1, ps1, end1)
+          refine ⟨ws0 ++ ws1, ?_, ?_⟩
+          · rw [e1, applyWrites_append]; simp only; rw [e0]
+          · intro x hx
+            rcases List.mem_append.mp hx with h | h
+            · exact g0 x h
+            · exact g1 x h
+    · exact ⟨[], by simp [applyWrites], by intro x hx; cases hx⟩
+
+theorem updateLastCommonHeader_inv {anc : Nat → Nat → Option NH} {mainHash : Nat → Option Nat} {tip : Nat}
+    {ps ps1 : PeersSt} {p : Nat} {best : NH} {r : Option NH}
+    (h : updateLastCommonHeader anc mainHash tip ps p best = (ps1, r)) :
+    (r = none → ps1 = ps) ∧
+    (∀ x, r = some x → ps1 = ps.setLastCommon p x ∧
+      updateLastCommonValue anc mainHash tip ((ps.get p).bind (·.lastCommon)) best = some x) := by
+  unfold updateLastCommonHeader at h
+  simp only [] at h
+  split at h
+  · simp only [Prod.mk.injEq] at h
+    obtain ⟨rfl, rfl⟩ := h
+    exact ⟨fun _ => rfl, fun x hx => (by cases hx)⟩
+  · rename_i v hv
+    simp only [Prod.mk.injEq] at h
+    obtain ⟨rfl, rfl⟩ := h
+    refine ⟨fun hx => (by cases hx), fun x hx => ?_⟩
+    cases hx
+    exact ⟨rfl, hv⟩
+
+/-- (2) Every way `fetch` can end (any early return, `?` exit or answer): all it does to the peers is a
+sequence of `set_last_common_header` calls for this peer, and each written value is one of three kinds —
+the best known header itself when it is on our main chain (the not-better branch); the value computed by
+`update_last_common_header`, i.e. by `update_last_common_header_spec` the latest common ancestor of the
+previous value (or the main-chain guess) and the best known header; or a stored-and-valid header met by
+the scan below the best known header. Every kind is an ancestor of the peer's best header that is stored
+and valid with us or an ancestor of the previous value, so `last_common_header_stays_on` carries over. -/
+theorem fetch_last_common_writes (e : Env) (infl : Inflight) (ps : PeersSt) (peer fetchEnd : Nat) :
+    ∃ ws, (fetch e infl ps peer fetchEnd).2.2 = applyWrites peer ws ps ∧
+      ∀ x ∈ ws, ∃ bk, (ps.get peer).bind (·.best) = some bk ∧
+        ((x = (bk.number, bk.hash) ∧ (e.numOnMain bk.hash).isSome = true ∧ ¬ bk.td > e.totalDifficulty) ∨
+         updateLastCommonValue (envAncNH e) e.mainHash e.tipNumber ((ps.get peer).bind (·.lastCommon))
+            (bk.number, bk.hash) = some x ∨
+         GoodScanWrite e bk.hash x) := by
+  have nil : ∀ q : PeersSt, q = ps → ∃ ws, q = applyWrites peer ws ps ∧
+      ∀ x ∈ ws, ∃ bk, (ps.get peer).bind (·.best) = some bk ∧
+        ((x = (bk.number, bk.hash) ∧ (e.numOnMain bk.hash).isSome = true ∧ ¬ bk.td > e.totalDifficulty) ∨
+         updateLastCommonValue (envAncNH e) e.mainHash e.tipNumber ((ps.get peer).bind (·.lastCommon))
+            (bk.number, bk.hash) = some x ∨
+         GoodScanWrite e bk.hash x) := by
+    intro q hq; exact ⟨[], by simp [applyWrites, hq], by intro x hx; cases hx⟩
+  unfold fetch
+  split
+  · exact nil _ rfl
+  split
+  · exact nil _ rfl
+  split
+  · exact nil _ rfl
+  rename_i bk hbk
+  simp only []
+  split
+  · rename_i htd
+    split
+    · rename_i hm
+      refine ⟨[(bk.number, bk.hash)], by simp [applyWrites], ?_⟩
+      intro x hx
+      have : x = (bk.number, bk.hash) := by simpa using hx
+      exact ⟨bk, hbk, Or.inl ⟨this, hm, by simpa using htd⟩⟩
+    · exact nil _ rfl
+  split
+  · rename_i ps1 hup
+    exact nil _ ((updateLastCommonHeader_inv hup).1 rfl)
+  rename_i ps1 lc hup
+  obtain ⟨hps1, hval⟩ := (updateLastCommonHeader_inv hup).2 lc rfl
+  have one : ∃ ws, ps1 = applyWrites peer ws ps ∧
+      ∀ x ∈ ws, ∃ bk, (ps.get peer).bind (·.best) = some bk ∧
+        ((x = (bk.number, bk.hash) ∧ (e.numOnMain bk.hash).isSome = true ∧ ¬ bk.td > e.totalDifficulty) ∨
+         updateLastCommonValue (envAncNH e) e.mainHash e.tipNumber ((ps.get peer).bind (·.lastCommon))
+            (bk.number, bk.hash) = some x ∨
+         GoodScanWrite e bk.hash x) := by
+    refine ⟨[lc], by simp [applyWrites, hps1], ?_⟩
+    intro x hx
+    have : x = lc := by simpa using hx
+    subst this
+    exact ⟨bk, hbk, Or.inr (Or.inl hval)⟩
+  split
+  · exact one
+  split
+  · exact one
+  obtain ⟨ws1, e1, g1⟩ := fetchLoop_writes e peer (bk.number, bk.hash)
+    (min (fetchEndN e lc bk fetchEnd - fetchStart e lc + 1) (peerCanFetch infl peer)) (bk.number + 2)
+    (fetchStart e lc) (infl, [], ps1, fetchEndN e lc bk fetchEnd)
+  have both : ∀ q, q = (fetchLoop e peer (bk.number, bk.hash)
+      (min (fetchEndN e lc bk fetchEnd - fetchStart e lc + 1) (peerCanFetch infl peer)) (bk.number + 2)
+      (fetchStart e lc) (infl, [], ps1, fetchEndN e lc bk fetchEnd)).2.2.2.1 →
+      ∃ ws, q = applyWrites peer ws ps ∧
+      ∀ x ∈ ws, ∃ bk, (ps.get peer).bind (·.best) = some bk ∧
+        ((x = (bk.number, bk.hash) ∧ (e.numOnMain bk.hash).isSome = true ∧ ¬ bk.td > e.totalDifficulty) ∨
+         updateLastCommonValue (envAncNH e) e.mainHash e.tipNumber ((ps.get peer).bind (·.lastCommon))
+            (bk.number, bk.hash) = some x ∨
+         GoodScanWrite e bk.hash x) := by
+    intro q hq
+    refine ⟨lc :: ws1, ?_, ?_⟩
+    · rw [hq, e1]; simp only; rw [hps1]; rfl
+    · intro x hx
+      rcases List.mem_cons.mp hx with h | h
+      · subst h; exact ⟨bk, hbk, Or.inr (Or.inl hval)⟩
+      · exact ⟨bk, hbk, Or.inr (Or.inr (g1 x h))⟩
+  split
+  · rename_i hloop
+    exact both _ (congrArg (fun r => r.2.2.2.1) hloop).symm
+  · rename_i hloop
+    exact both _ (congrArg (fun r => r.2.2.2.1) hloop).symm
+
+/-- (3) The `mark_slow_block` decision of `fetch`: the slow marks are taken exactly when the highest
+requested header is more than CHECK_POINT_WINDOW (= 4 × MAX_BLOCKS_IN_TRANSIT_PER_PEER) above the
+unverified tip; and `mark_slow_block` changes the marks only (requests, peer lists, counters stay). -/
+theorem fetch_mark_slow_iff (e : Env) (infl : Inflight) (ps : PeersSt) (peer fetchEnd : Nat)
+    {cs : List (List Nat)} {infl' : Inflight} {ps' : PeersSt}
+    (h : fetch e infl ps peer fetchEnd = (some cs, infl', ps')) :
+    ∃ infl2 fetched, cs.flatten = (sortFetched fetched).map (·.id) ∧
+      infl' = (if shouldMark e (sortFetched fetched) then markSlow infl2 e.now e.unverifiedTip else infl2) ∧
+      (shouldMark e (sortFetched fetched) = true ↔
+        ∃ last, (sortFetched fetched).getLast? = some last ∧
+          last.number > e.unverifiedTip + MAX_BLOCKS_IN_TRANSIT_PER_PEER * CHECK_POINT_WINDOW_FACTOR) ∧
+      (markSlow infl2 e.now e.unverifiedTip).states = infl2.states ∧
+      (markSlow infl2 e.now e.unverifiedTip).scheds = infl2.scheds := by
+  obtain ⟨bk, ps1, lc, infl2, fetched, endN2, _, _, _, _, _, _, hcs, hinfl⟩ :=
+    fetch_some_inv e infl ps peer fetchEnd cs infl' ps' h
+  refine ⟨infl2, fetched, ?_, hinfl, ?_, (markSlow_states _ _ _).1, (markSlow_states _ _ _).2.2⟩
+  · rw [hcs]; exact chunks_flatten _ (by decide) _ _ (by simp)
+  · unfold shouldMark
+    cases (sortFetched fetched).getLast? with
+    | none => simp
+    | some last =>
+      simp only [decide_eq_true_eq, Option.some.injEq, exists_eq_left']
+      omega
+
+
+/-- non-vacuity of the requests / writes theorems, on the run of `fetch_overruns_fetch_end` (empty, hence
+consistent, in-flight table; peer 7 with best known header 5 and last common header 1): the scan records
+exactly one request — header 3 from peer 7 — and makes exactly one last-common write, to the stored and
+valid block 2. -/
+example : Inflight.Inv ({} : Inflight) := Inflight.Inv.empty
+example : (fetchLoop exFetchEnv 7 (5, 5) 1 7 2
+      ({}, [], [(7, { best := some ⟨5, 5, 12⟩, lastCommon := some (1, 1) })], 2)).2.1.states =
+      [reqEntry exFetchEnv 7 ⟨3, 3, 2, none⟩] ∧
+    (fetchLoop exFetchEnv 7 (5, 5) 1 7 2
+      ({}, [], [(7, { best := some ⟨5, 5, 12⟩, lastCommon := some (1, 1) })], 2)).2.2.2.1 =
+      applyWrites 7 [(2, 2)] [(7, { best := some ⟨5, 5, 12⟩, lastCommon := some (1, 1) })] := by decide
+example : GoodScanWrite exFetchEnv 5 (2, 2) := ⟨2, ⟨2, 2, 1, none⟩, 0, ⟨2, 2, 1, none⟩, by decide, by decide, by decide, by decide, rfl⟩
 
 end Fetch
 
